@@ -236,3 +236,12 @@ func jinsList(v interface{}) []ins {
 	}
 	return r
 }
+
+// jq renders a Go string as a JSON string literal (Go's %q is not JSON for control bytes)
+func jq(s string) string {
+	b, err := json.Marshal(s)
+	if err != nil {
+		return `"?"`
+	}
+	return string(b)
+}
